@@ -453,11 +453,15 @@ impl Property for C04 {
         }
     }
     fn generate(&self, g: &mut SplitMix, k: &mut SplitMix, _tier: Tier) -> (Knobs, Value) {
-        let knobs = Knobs::draw(k);
+        let mut knobs = Knobs::draw(k);
+        knobs.max_steps = 3_000_000;
         let tree = gen_tree(g);
         let opts = ArcOpts { order: if g.chance(1, 3) { 0 } else { g.next() | 1 }, dir_members: g.chance(4, 5), dot_prefix: g.chance(1, 4), gnu: g.chance(2, 3), deflate: g.chance(1, 2) };
+        // short reads cost one scheduling point per chunk: keep the number of chunks per run bounded
+        let total: usize = tree.files.values().map(|v| v.len()).sum::<usize>() + 512 * tree.files.len();
+        let min_chunk = 1 + total / 1500;
         let fault = match g.below(8) {
-            0 => RFault::Short(1 + g.below(7) as usize),
+            0 => RFault::Short(min_chunk + g.below(7) as usize),
             1 => RFault::Eintr(2 + g.below(5)),
             // (Interrupted is not a hard error for a reader: callers are entitled to retry it; it has its own fault kind)
             2 => RFault::HardAt(g.below(40), *g.pick(&HARD_KINDS)),
